@@ -667,6 +667,25 @@ func main() {
 			c.miss = append(c.miss, "thrift.ApplicationException.Error format")
 		}
 		c.emit("/-- the fallback format of ApplicationException.Error for unknown type ids -/\ndef appExcUnknownFormat : String := %s\n", leanStr(format))
+		sformat := ""
+		if fd, pk := c.findFunc("protocol/thrift", "ApplicationException", "String"); fd != nil {
+			ast.Inspect(fd, func(nd ast.Node) bool {
+				ce, ok := nd.(*ast.CallExpr)
+				if !ok || len(ce.Args) == 0 {
+					return true
+				}
+				if sel, ok := ce.Fun.(*ast.SelectorExpr); ok && sel.Sel.Name == "Sprintf" {
+					if tv, ok := pk.TypesInfo.Types[ce.Args[0]]; ok && tv.Value != nil {
+						sformat = constant.StringVal(tv.Value)
+					}
+				}
+				return true
+			})
+		}
+		if sformat == "" {
+			c.miss = append(c.miss, "thrift.ApplicationException.String format")
+		}
+		c.emit("/-- the format of ApplicationException.String (arguments: type id, message) -/\ndef appExcStringFormat : String := %s\n", leanStr(sformat))
 	}
 
 	// argument of span.NewSpanCache(...) in protocol/thrift/binary.go
